@@ -1,0 +1,42 @@
+//go:build verif
+// +build verif
+
+package context
+
+// Contracts for package context (consumed by /verif/govc; comment-only file).
+
+//@ func (*DataContext).GetValue
+//@   props C03 C15
+//@   ensures result.1 != nil ==> result.0 == RV_zero()
+//@   modifies nothing
+//@   trusted data context contracts pending
+
+//@ func (*DataContext).SetValue
+//@   props C03 C15
+//@   ensures true
+//@   modifies frame evalframe
+//@   trusted data context contracts pending
+
+//@ func (*DataContext).SetMapVarValue
+//@   props C03
+//@   ensures true
+//@   modifies frame evalframe
+//@   trusted data context contracts pending
+
+//@ func (*DataContext).ExecFunc
+//@   props C03
+//@   ensures true
+//@   modifies frame evalframe
+//@   trusted data context contracts pending
+
+//@ func (*DataContext).ExecMethod
+//@   props C03
+//@   ensures true
+//@   modifies frame evalframe
+//@   trusted data context contracts pending
+
+//@ func (*DataContext).ExecThreeLevel
+//@   props C03
+//@   ensures true
+//@   modifies frame evalframe
+//@   trusted data context contracts pending
